@@ -93,8 +93,8 @@ fn expected_start<const H: usize, const N: usize>(
     }
 }
 
-pub fn contiguous_ascii<const H: usize, const N: usize, const P: usize>(k: Kind, path: Option<bool>) {
-    let sc = sym_config_p(path, Some(false));
+pub fn contiguous_ascii<const H: usize, const N: usize, const P: usize>(k: Kind, path: Option<bool>, ic: Option<bool>) {
+    let sc = sym_config_full(path, ic, Some(false));
     let hay: [u8; H] = sym::ascii_arr();
     let needle: [u8; N] = sym_needle_ascii(sc.cfg.ignore_case);
     // U+000B: std's byte and char whitespace predicates disagree and the statement does not
@@ -152,3 +152,40 @@ pub fn contiguous_ascii<const H: usize, const N: usize, const P: usize>(k: Kind,
 }
 
 include!(concat!(env!("NUCLEO_VERIF_GEN"), "/matcher_exact.rs"));
+
+/// C03 "never wraps around for long needles" / C10 "no arithmetic overflow": a haystack and a
+/// needle of L equal characters (the character and the whole configuration are symbolic; L is
+/// concrete and large enough that the plain sum exceeds u16::MAX). Kani's overflow checks are
+/// the assertion; the result must be the saturated value.
+pub fn long_needle<const L: usize>(k: Kind) {
+    let sc = sym_config(None);
+    let b = sym::ascii();
+    assume(b != 0x0b && !spec::is_ws_ascii(b));
+    assume(!(sc.cfg.ignore_case && b >= b'A' && b <= b'Z'));
+    let hay = [b; L];
+    let mut m = Matcher::new(sc.cfg.clone());
+    let r = call(&mut m, k, Utf32Str::Ascii(&hay), Utf32Str::Ascii(&hay), None);
+    check!(r.is_some(), "C05 a string matches itself (long needle)");
+    // every step adds at least 16: beyond 4096 characters the true value exceeds u16::MAX
+    check!(r == Some(u16::MAX), "C03 the score of a needle of several thousand characters saturates instead of wrapping around");
+    std::mem::forget(m);
+}
+
+/// the prefer_prefix penalty for a match starting far into a long haystack must not overflow
+pub fn far_start<const L: usize>() {
+    let mut sc = sym_config(Some(true));
+    let b = sym::ascii();
+    let f = sym::ascii();
+    assume(b != f && !spec::is_ws_ascii(b) && !spec::is_ws_ascii(f) && b != 0x0b && f != 0x0b);
+    assume(!(sc.cfg.ignore_case && b >= b'A' && b <= b'Z'));
+    assume(spec::fold_ascii(f, sc.cfg.ignore_case) != b);
+    let mut hay = [f; L];
+    hay[L - 1] = b;
+    let needle = [b];
+    let mut m = Matcher::new(sc.cfg.clone());
+    let r = m.postfix_match(Utf32Str::Ascii(&hay), Utf32Str::Ascii(&needle));
+    check!(r.is_some(), "C05 postfix match at the end of a long haystack");
+    let r2 = m.fuzzy_match_greedy(Utf32Str::Ascii(&hay), Utf32Str::Ascii(&needle));
+    check!(r2.is_some(), "C01 greedy match at the end of a long haystack");
+    std::mem::forget(m);
+}
